@@ -547,6 +547,27 @@ pub fn run(ctx: &mut Ctx) {
 
     // ---- random structured templates ----
     let mut rng = Rng::new(ctx.seed);
+    // long text-only templates (beyond every initial buffer size of the buffered entry point), each
+    // followed by short ones: all render to themselves.  The long ones are judged here (the statement
+    // itself is the reference: output == input); the short ones go to the driver as usual.
+    for (k, size) in [20_000usize, 700_000, 1_300_000, 9_999, 10_001].into_iter().enumerate() {
+        let unit = ["lorem { ipsum } % 'q' \"d\" é日😀\r\n\t", "x", "}} %} -"][k % 3];
+        let mut big = String::with_capacity(size + unit.len());
+        while big.len() < size {
+            big.push_str(unit);
+        }
+        let obs = render_text(&parser, &big, &data);
+        let ok = matches!(&obs, Obs::Ok(o) if *o == big);
+        let detail = match &obs {
+            Obs::Ok(o) => format!("text-only template of {} bytes rendered to {} bytes, first difference at byte {}", big.len(), o.len(), o.bytes().zip(big.bytes()).position(|(a, b)| a != b).unwrap_or(o.len().min(big.len()))),
+            other => format!("text-only template of {} bytes: {}", big.len(), other.tokens().chars().take(40).collect::<String>()),
+        };
+        ctx.emit(format!("law text-only renders-to-itself {} {}", if ok { "ok" } else { "fail" }, xs(&detail)));
+        for _ in 0..20 {
+            let ps = vec![Piece::Lit(text(&mut rng, 24, true))];
+            case(ctx, &parser, &data, "plain-after-long", &ps);
+        }
+    }
     let n_plain = if thorough { 30_000 } else { 1_000 };
     for _ in 0..n_plain {
         // no markup at all: renders to itself
